@@ -18,10 +18,10 @@ pub fn def() -> PropDef {
         genome_len: 400,
         quick_cases: 8_000,
         thorough_cases: 400_000,
-        rule: "case = (constructor, (x,y)): AffineG1::new on curve points, near misses, wrong-b points, uniform pairs; AffineG2::new and the three G2 decoders on subgroup points, random points of the twist (order r*h, built from a generated x by the reference sqrt), cofactor-cleared points h*T, r*T, points of order 13 / 1621 / 13*1621 (r*h/13*T etc.), subgroup point + small-order point, near misses (y+1, x+1), wrong-b points, points of the untwisted curve embedded in Fq2, uniform pairs; oracle: reference curve equation and r*P = O by reference scalar multiplication; non-trivial = input on the curve/twist but not a plain generator multiple, or a near miss; distinct by (constructor, x, y)",
+        rule: "case = (constructor, (x,y)): AffineG1::new on curve points, near misses, wrong-b points, uniform pairs; AffineG2::new and the three G2 decoders on subgroup points, random points of the twist (order r*h, built from a generated x by the reference sqrt), cofactor-cleared points h*T, r*T, points of order 13 / 1621 / 13*1621 (r*h/13*T etc.), subgroup point + small-order point, near misses (y+1, x+1), wrong-b points, points of the untwisted curve embedded in Fq2, uniform pairs, and two-step histories (a subgroup point is accepted first, then a twist point sharing the real or the imaginary part of its x is submitted); oracle: reference curve equation and r*P = O by reference scalar multiplication; non-trivial = input on the curve/twist but not a plain generator multiple, or a near miss; distinct by (constructor, x, y)",
         required: crate::runner::req(&[
             "g1:on-curve", "g1:near-miss", "g1:wrong-b", "g1:uniform", "g2:subgroup", "g2:twist-random", "g2:cofactor-cleared", "g2:r*T", "g2:order-13", "g2:order-1621",
-            "g2:order-13*1621", "g2:subgroup+small", "g2:near-miss", "g2:wrong-b", "g2:untwisted", "g2:uniform", "expect:accept", "expect:reject",
+            "g2:order-13*1621", "g2:subgroup+small", "g2:near-miss", "g2:wrong-b", "g2:untwisted", "g2:uniform", "g2:after-accept-shared-component", "expect:accept", "expect:reject",
         ]),
         enumerate: None,
         enumerate_note: "",
@@ -143,7 +143,31 @@ pub fn check(g: &[u8], ctx: &Ctx) -> Result<Info, Failure> {
         return Ok(info);
     }
     // ---------------------------------------------------------------- AffineG2::new and the G2 decoders
-    let (cls, pt): (&str, Aff<R2>) = match s.weighted(&[2, 9, 2, 1, 1, 1]) {
+    let (cls, pt): (&str, Aff<R2>) = match s.weighted(&[2, 9, 2, 1, 1, 1, 2]) {
+        6 => {
+            // history: a subgroup point S is validated first (must be accepted), then a point of the twist that shares one
+            // component of x with S (validators that remember earlier verdicts must still decide on the whole input)
+            let sp = rf::g2_mul(&scalar_nonzero(&mut s).k).unwrap();
+            if let Err(e) = AffineG2::new(fq2_of_r2(&sp.0), fq2_of_r2(&sp.1)) {
+                fail!("affine-g2|rejected-member", "AffineG2::new = Err({:?}) for a subgroup point x={} y={}", e, show_r2(&sp.0), show_r2(&sp.1));
+            }
+            let keep_real = s.bool();
+            let mut o = rf::f_from_big(&felt(&mut s, Md::Q).v);
+            let neg = s.bool();
+            let p = loop {
+                let x = if keep_real { R2::new(sp.0.a, o) } else { R2::new(o, sp.0.b) };
+                if x != sp.0 {
+                    let rhs = x.sqr().mul(&x).add(&rf::b2());
+                    if let Some(y) = rhs.sqrt() {
+                        if !Fld::is_zero(&y) {
+                            break (x, if neg { y.neg() } else { y });
+                        }
+                    }
+                }
+                o = o + F::one();
+            };
+            ("g2:after-accept-shared-component", Some(p))
+        }
         0 => {
             let k = scalar_nonzero(&mut s).k;
             ("g2:subgroup", rf::g2_mul(&k))
